@@ -55,6 +55,12 @@ func (w *World) applyFault(orig []byte, f *Fault) []byte {
 			return nil
 		}
 		copy(d[f.Off:], f.Data)
+	case "edit2": // octet Off ^= Bit, octet Val ^= Len
+		if f.Off < 0 || f.Val < 0 || f.Off >= len(d) || f.Val >= len(d) || f.Off == f.Val {
+			return nil
+		}
+		d[f.Off] ^= byte(f.Bit)
+		d[f.Val] ^= byte(f.Len)
 	case "splice": // d[:off] of this one, other[off:] of the second
 		o := w.dgram(f.With)
 		if o == nil || f.Off < 0 || f.Off > len(d) || f.Off > len(o.Bytes) {
